@@ -118,6 +118,8 @@ def install(reg):
         x, spec = a[0], a[1]
         if x.f["name"].v == "torch":
             raise RaiseSig("TypeError", n)
+        if isinstance(spec, NoneV):
+            return dt("np", 64)                       # numpy.dtype(None) is float64 (jax.numpy.dtype is numpy.dtype)
         if isinstance(spec, Str):
             if spec.v in ("float32", "float64", "float16", "int32", "int64"):
                 return dt("np", int(spec.v[-2:]))
@@ -250,6 +252,11 @@ class ResolveDtype(Contract):
             p.prove(z3.BoolVal(same_dtype(r, dt(fam, width_of(spec)))), f"{q}:C15:result belongs to the namespace's dtype family and keeps the requested width {tag}")
         else:
             p.prove(z3.BoolVal(r is spec), f"{q}:C15:a dtype object of another family is returned unchanged (precondition of callers: convert first) {tag}")
+
+    def post_raise(self, I, pre, sig):
+        g = pre.ghost
+        # every spelling in the shape list names an existing dtype: nothing may be raised for it
+        I.path.prove(z3.BoolVal(False), f"{self.qual}:C15:a valid dtype specification is resolved, not rejected [{g['shape']['spec']} for {g['xp']}: {sig.exc}]", assume_after=False)
 
 
 class ConvertDtype(Contract):
@@ -387,16 +394,21 @@ class BaseToNumpy(Conversion):
     doc = "values, optional fields and width preserved; result is a NumPy sample set"
 
     def shapes(self):
-        return [s for s in conv_shapes(self.classes, targets=("numpy",))]
+        out = [dict(s, dtype=None) for s in conv_shapes(self.classes, targets=("numpy",))]
+        # an explicit dtype argument (string spelling): the requested width wins over the source's
+        if self.qual == "samples:BaseSamples.to_numpy":         # only the base method takes a dtype argument
+            out += [dict(s, dtype=d) for s in conv_shapes(self.classes, targets=("numpy",)) for d in ("float32", "float64") if s["present"] in (0, len(PRESENT) - 1)]
+        return out
 
     def setup(self, I, shape):
         s = mk_token_samples(shape["cls"], shape["src"], shape["w"], PRESENT[shape["present"]], I=I)
-        tag = f"{shape['cls']} {shape['src']} float{shape['w']} -> numpy"
-        return Pre(s, [], ghost={"snap": dict(s.f), "cls": shape["cls"], "shape": shape, "tag": tag})
+        tag = f"{shape['cls']} {shape['src']} float{shape['w']} -> numpy" + (f", dtype='{shape['dtype']}'" if shape["dtype"] else "")
+        kw = {"dtype": Str(shape["dtype"])} if shape["dtype"] else {}
+        return Pre(s, [], kw, ghost={"snap": dict(s.f), "cls": shape["cls"], "shape": shape, "tag": tag})
 
     def post(self, I, pre, r):
         sh = pre.ghost["shape"]
-        self.check(I, pre, r, "numpy", sh["w"], f"[{pre.ghost['tag']}]")
+        self.check(I, pre, r, "numpy", int(sh["dtype"][-2:]) if sh["dtype"] else sh["w"], f"[{pre.ghost['tag']}]")
 
 
 class SamplesToNumpy(BaseToNumpy):
